@@ -13,6 +13,28 @@ Bound == /\ Len(msgs) <= MsgBound
 
 AllTopos == Topos
 QuickTopos == {"direct", "ghosts"}
+LiveTopos == {"direct", "partial"}
+\* quick configurations leave retrievals out (only a retrieval changes the serving node A)
+NoRetrieve == ns'["A"] = ns["A"]
 MCSpec == (Init /\ par.topo \in MCTopos) /\ [][Next]_vars
+
+(***************************************************************************)
+(* D5 as a liveness property: every Init call returns.  Assumptions: the   *)
+(* loop's ticker ticks, an armed timeout trigger eventually fires, a       *)
+(* queued message is eventually delivered or lost, a parked handler is     *)
+(* eventually resumed.  Duplication is left out here (it can keep the bag  *)
+(* non-empty for ever, which says nothing about the call).                 *)
+(***************************************************************************)
+NextLive == \/ \E n \in {"B"} : DoInit(n) \/ DoTick(n) \/ DoCancel(n) \/ DoDelDiscover(n) \/ DoDelFile(n)
+                                  \/ DoRelease(n) \/ DoAsyncDel(n, TRUE) \/ DoAsyncDel(n, FALSE)
+            \/ \E n \in {"B"}, o \in Node : DoTimeout(n, o)
+            \/ \E n \in {"B"}, c \in 1..2 : DoRetrieve(n, c)
+            \/ \E i \in DOMAIN msgs : Deliver(i) \/ Drop(i) \/ DoPark(i)
+Fair == /\ WF_vars(DoTick("B"))
+        /\ WF_vars(\E o \in Node : DoTimeout("B", o))
+        /\ WF_vars(\E i \in DOMAIN msgs : Deliver(i) \/ Drop(i))
+        /\ WF_vars(DoRelease("B"))
+LiveSpec == (Init /\ par.topo \in MCTopos) /\ [][NextLive]_vars /\ Fair
+InitReturns == (ns["B"].fst \in {"rpc", "sel", "wait"}) ~> (ns["B"].fst = "done" \/ ns["B"].crashed)
 
 =============================================================================
